@@ -258,7 +258,7 @@ PROPS = {
         module="Bita.Props.C05",
         level="proof",
         needs_bita=True,
-        required_theorems=["rerun_completes", "rerun_completes_any_content", "failed_write_not_success", "no_fault_success", "clone_steps_as_modelled"],
+        required_theorems=["rerun_completes", "rerun_completes_any_content", "cli_rerun_completes", "failed_write_not_success", "no_fault_success", "clone_steps_as_modelled"],
         suites=dict(quick=[("py", "c05_crash")], thorough=[("py", "c05_crash")]),
         rule="scenarios (plain / in-place, with/without seed file, none/brotli) x crash points (write index x tear offsets {0, size, random, 1, "
              "size-1}) x optional second crash of the re-run; write faults fail/tear at first, middle, second-to-last, last write",
@@ -409,7 +409,7 @@ PROPS = {
         module="Bita.Props.C17",
         level="proof",
         needs_bita=True,
-        required_theorems=["conforming_archive_clones", "conforming_archive_clones_over_http", "conforming_archive_clones_through_io_reader", "conforming_archive_reports", "readers_exact_on_any_layout", "clone_steps_as_modelled"],
+        required_theorems=["conforming_archive_clones", "conforming_archive_clones_over_http", "conforming_archive_clones_through_io_reader", "cli_conforming_archive_clones", "conforming_archive_reports", "readers_exact_on_any_layout", "clone_steps_as_modelled"],
         suites=dict(quick=[("py", "c17_conforming")], thorough=[("py", "c17_conforming")]),
         rule="random sources cut arbitrarily (any cut is format-conforming), random valid parameters, independent encoder with random "
              "freedoms; oracle: CLI clone (local, HTTP, with seed) == source, info lines == encoder inputs; model: clone result/output",
